@@ -44,7 +44,7 @@ CLAIMED = {
              "anything is constructed, for all other arguments (7 classes + WRITE SAME(16) unless NDOB; ATA by flag sweep); no constructor "
              "of any of the 42 classes returns a command for any of the 96 operation codes without a fixed CDB length. The refusals that go "
              "through the facade and the parameter-list marshallers (PR IN service action, EXTENDED COPY keys/codes, TransportID, nothing "
-             "sent) are checked on the implementation by 430 scenario probes with a recording device on every run (PR IN with every value 4..39, -40..-1, large, negative large, None, strings, ()); "
+             "sent) are checked on the implementation by 430 scenario probes with a recording device on every run (PR IN with every value 4..39, -40..-1, large, negative large, None, strings, (); EXTENDED COPY descriptors with the unknown keys "", " ", 0, None, an upper-case known key); "
              "the PERSISTENT RESERVE IN method is REGENERATED and must be exactly the chain `if sa == X: ... elif ... else: raise ValueError` over the four service actions (C17_prin_dispatch_is_a_closed_chain).",
         ref="DESIGN.md §4 C17",
         note="As C01. Partial: the facade/marshaller refusals are decided by exhaustive scenario probes of the implementation, not yet by a "
@@ -89,7 +89,7 @@ CLAIMED = {
              "__enter__/__exit__; blocksize property; no other member, decorator or class-level attribute). Histories of calls on ONE facade "
              "over the real SCSIDevice / ISCSIDevice (stub bindings, scripted answers incl. hidden re-executions) are judged on every run: "
              "exactly one command per call, T10 opcode whatever was called before, same behaviour as on a brand-new facade; the scripted answers include a CHECK CONDITION for which the binding has no sense data "
-             "(whatever the library raises then, the command is not handed over a second time).",
+             "(whatever the library raises then, the command is not handed over a second time), and re-entrant steps (while a call is with the device another facade serves the same kind of request with other arguments: the outer call still decodes its own buffer with its own arguments).",
         ref="DESIGN.md §4 C13",
         note="The event-trace semantics of the action language is hand-written (Model/Facade.v) and tied by correspondence; buffer identity "
              "and decode-after-execute are observed on the implementation, not modelled.",
